@@ -16,6 +16,9 @@ WITNESS = {
     "get_from_sorted_mut": "select",
     "get_many_from_sorted_mut": "select_many",
     "remove_nan_mut": "nanview",
+    "EquiSpaced::n_bins": "strategies",
+    "EquiSpaced::build": "strategies",
+    "EquiSpaced::new": "strategies",
     "_get_many_from_sorted_mut_unchecked": "select_many",
 }
 
@@ -57,6 +60,18 @@ PROPS = {
         "enum": [{"name": "nanview"}],
         "assumptions": [A_ND, A_VERUS, A_EXTRACT, A_ENUM, "unsafe code (cast_view_mut, Option<T>::remove_nan_mut pointer casts, NotNone::deref's unreachable_unchecked) is outside Verus; covered only by the bounded memory-level enumeration"],
         "not_decided": ["soundness of the unsafe view builders beyond the enumerated bound"],
+    },
+    "C12": {
+        "level": "proof",
+        "level_text": "Verus discharges on the extracted EquiSpaced::{new,n_bins,build} bodies, generically in the element type with arithmetic left uninterpreted but deterministic (so the argument holds for N64 as well as for integers): new rejects exactly non-positive widths and min >= max with the Strategy error; n_bins returns the first n whose edge min + n*width - computed by the very expression build uses - lies strictly above the maximum (all earlier edges are <= max: at most one width above), terminates and cannot overflow whenever some edge passes the maximum; build produces strictly sorted edges containing min + 0*width and a bin for every value between that first edge and the maximum (coverage lemma proved by induction). The five strategy front-ends (sqrt/powf/log2/quantiles, f64 casts) are outside Verus: bounded enumeration on the real crate",
+        "level_note": "trusted: A-NUM (num_traits NumOps/FromPrimitive/Zero are deterministic functions of their arguments; from_usize defined on 0..=m), A-ORD + PartialEq agrees with Ord, A-STD (sort_unstable, dedup, Vec push/len); the precondition 'some edge min + m*width exceeds max for m < usize::MAX' (true for integer data kept away from the type's limits and for floats whose width is not absorbed); exact integer spacing / first edge == min need the ring laws of the concrete type and are checked bounded only; bounded: enum:strategies - integer multisets of length <= 5 (quick) / 6 (thorough), N64 grids of 2..120 (quick) / 400 (thorough) points in 4 families, five strategies, 1-D GridBuilder + histogram total",
+        "technique": "Verus contracts with uninterpreted generic arithmetic on extracted EquiSpaced bodies + inductive coverage lemma",
+        "design_ref": "DESIGN.md 4 (C12)",
+        "verus": [("equispaced", "N")],
+        "enum": [{"name": "strategies"}],
+        "assumptions": [A_ORD, A_STD, A_VERUS, A_EXTRACT, A_ENUM, "A-NUM: generic arithmetic (Add/Mul on T, FromPrimitive::from_usize, Zero::zero) is deterministic; machine arithmetic of the concrete element type is not interpreted"],
+        "assumed_repo_fns": ["src/histogram/strategies.rs Sqrt/Rice/Sturges/FreedmanDiaconis/Auto::from_array, compute_bin_width, GridBuilder::{from_array,build}: float math and iterator chains outside Verus - bounded enumeration only"],
+        "not_decided": ["termination / equal spacing / exact first edge for concrete element types beyond the enumerated data sets", "floating-point data whose bin width is absorbed by the magnitude of the minimum (precondition of the contracts)"],
     },
     "C13": {
         "level": "proof",
